@@ -212,6 +212,12 @@ struct TokFam {
 		add("pair-len-huge", tv(lt, "4294967295") + tv(dt, "A"));
 		add("pair-len-wrap", tv(lt, "4294967297") + tv(dt, "A"));
 		add("pair-len-neg", tv(lt, "-1") + tv(dt, "A"));
+		// small negative lengths and their 32-bit wrap-arounds: an index computed from such a length lands just in front of the
+		// value (on the '=', the tag digits, the separator before the tag)
+		for (int k = 2; k <= 8; ++k) {
+			add("pair-len-neg:" + std::to_string(k), tv(lt, "-" + std::to_string(k)) + tv(dt, "ABC"));
+			add("pair-len-wrapneg:" + std::to_string(k), tv(lt, std::to_string(4294967296ULL - (unsigned long long)k)) + tv(dt, "ABC"));
+		}
 		add("pair-data-unterminated", tv(lt, "1") + std::to_string(dt) + "=A");
 		add("pair-data-tag-only", tv(lt, "1") + std::to_string(dt));
 		add("pair-wrong-partner", tv(lt, "1") + tv(sft, "A"));
@@ -423,7 +429,7 @@ int main(int argc, char **argv)
 {
 	vh::Run R(argc, argv); RP = &R;
 	fb::block_prof();	// inherited by the logger thread
-	GlobalLogger::set_levels(Logger::Levels(Logger::None));
+	// the global logger (and its thread) is first touched in the forked children only: see forkbatch.hpp child_init
 	SCHEMA = R.args.get("schema", "utest");
 	CTX = SCHEMA == "utest" ? &UTEST::ctx() : &F44::ctx();
 	sm::load_schema(S, std::string(getenv("VERIF_BUILD") ? getenv("VERIF_BUILD") : "build/main") + "/gen/" + SCHEMA + ".model");
@@ -494,6 +500,7 @@ int main(int argc, char **argv)
 	};
 
 	if (R.single) {
+		fb::child_init();	// no fork in this mode
 		fb::start_watchdog(true);
 		if (!run_desc(R.single_case)) { fprintf(stderr, "malformed case descriptor %s\n", R.single_case.c_str()); return 2; }
 		R.finish(); return R.violations ? 1 : 0;
